@@ -990,4 +990,244 @@ Definition src_repeat_interesting : string := "def interesting(cli_args: List[st
         if cast(Any, condition_script).interesting(replaced_condition_args, temp_prefix):
             return True
     return False"%string.
+Definition src_strategies_ReplacePropertiesByGlobals_reduce : string := "@ReductionIterator.wrap
+def reduce(self, iterator: ReductionIterator) -> Iterator[Testcase]:
+    chunk_size = min(self.minimize_max, 2 * largest_power_of_two_smaller_than(len(iterator.testcase.parts)))
+    final_chunk_size = max(self.minimize_min, 1)
+    orig_num_chars = 0
+    for line in iterator.testcase.parts:
+        orig_num_chars += len(line)
+    num_chars = orig_num_chars
+    while True:
+        num_removed_chars = 0
+        for maybe_removed, testcase in self.try_making_globals(chunk_size, num_chars, iterator):
+            yield testcase
+            if iterator.last_feedback:
+                num_removed_chars += maybe_removed
+        num_chars -= num_removed_chars
+        last = chunk_size <= final_chunk_size
+        if num_removed_chars and (self.minimize_repeat == 'always' or (self.minimize_repeat == 'last' and last)):
+            pass
+        elif last:
+            break
+        else:
+            chunk_size >>= 1
+    LOG.info('  Initial size: %s', quantity(orig_num_chars, 'character'))
+    LOG.info('  Final size: %s', quantity(num_chars, 'character'))
+    if final_chunk_size == 1 and self.minimize_repeat != 'never':
+        LOG.info('  Removing any single %s from the final file makes it uninteresting!', iterator.testcase.atom)"%string.
+Definition src_strategies_ReplacePropertiesByGlobals_try_making_globals : string := "def try_making_globals(self, chunk_size: int, num_chars: int, iterator: ReductionIterator) -> Iterator[Tuple[int, Testcase]]:
+    num_removed_chars = 0
+    num_chunks = divide_rounding_up(len(iterator.testcase.parts), chunk_size)
+    final_chunk_size = max(self.minimize_min, 1)
+    words = {}
+    for chunk, line in enumerate(iterator.testcase.parts):
+        if not iterator.testcase.reducible[chunk]:
+            continue
+        for match in re.finditer(b'(?<=[\\w\\d_])\\.(\\w+)', line):
+            word = match.group(1)
+            if word not in words:
+                words[word] = [chunk]
+            else:
+                words[word] += [chunk]
+    if not words:
+        return
+    LOG.info('Starting a round with chunks of %s.', quantity(chunk_size, iterator.testcase.atom))
+    summary = 'S' * num_chunks
+    for word, chunks in list(words.items()):
+        chunk_indexes = {}
+        for chunk_start in chunks:
+            chunk_idx = chunk_start // chunk_size
+            if chunk_idx not in chunk_indexes:
+                chunk_indexes[chunk_idx] = [chunk_start]
+            else:
+                chunk_indexes[chunk_idx] += [chunk_start]
+        for chunk_idx, chunk_starts in chunk_indexes.items():
+            if len(chunk_starts) == 1 and final_chunk_size != chunk_size:
+                continue
+            description = f""'{word.decode('utf-8', 'replace')}' in chunk #{chunk_idx} of {num_chunks} chunks of size {chunk_size}""
+            maybe_removed = 0
+            new_tc = iterator.testcase.copy()
+            for chunk_start in chunk_starts:
+                subst = re.sub(b'[\\w_.]+\\.' + word, word, new_tc.parts[chunk_start])
+                maybe_removed += len(new_tc.parts[chunk_start]) - len(subst)
+                new_tc.parts = new_tc.parts[:chunk_start] + [subst] + new_tc.parts[chunk_start + 1:]
+                new_tc.reducible = new_tc.reducible[:chunk_start] + [True] + new_tc.reducible[chunk_start + 1:]
+            for test in iterator.try_testcase(new_tc, 'Removing prefixes of ' + description):
+                yield (maybe_removed, test)
+                if iterator.last_feedback:
+                    num_removed_chars += maybe_removed
+                    summary = summary[:chunk_idx] + 's' + summary[chunk_idx + 1:]
+                    words[word] = [c for c in chunks if c not in chunk_indexes]
+                    if not words[word]:
+                        del words[word]
+    num_surviving_chars = num_chars - num_removed_chars
+    printable_summary = ' '.join((summary[2 * i:min(2 * (i + 1), num_chunks + 1)] for i in range(num_chunks // 2 + num_chunks % 2)))
+    LOG.info('')
+    LOG.info('Done with a round of chunk size %d!', chunk_size)
+    LOG.info('%s survived; %s shortened.', quantity(summary.count('S'), 'chunk'), quantity(summary.count('s'), 'chunk'))
+    LOG.info('%s survived; %s removed.', quantity(num_surviving_chars, 'character'), quantity(num_removed_chars, 'character'))
+    LOG.info('Which chunks survived: %s', printable_summary)
+    LOG.info('')"%string.
+Definition src_strategies_ReplaceArgumentsByGlobals_reduce : string := "@ReductionIterator.wrap
+def reduce(self, iterator: ReductionIterator) -> Iterator[Testcase]:
+    while True:
+        num_removed_arguments = 0
+        for maybe_removed, testcase in self.try_arguments_as_globals(iterator):
+            yield testcase
+            if iterator.last_feedback:
+                num_removed_arguments += maybe_removed
+        if num_removed_arguments and self.minimize_repeat in {'always', 'last'}:
+            pass
+        else:
+            break"%string.
+Definition src_strategies_ReplaceArgumentsByGlobals_try_arguments_as_globals : string := "@staticmethod
+def try_arguments_as_globals(iterator: ReductionIterator) -> Iterator[Tuple[int, Testcase]]:
+    num_moved_arguments = 0
+    num_survived_arguments = 0
+    functions: Dict[bytes, Dict[str, Any]] = {}
+    anonymous_queue: List[Dict[str, Any]] = []
+    anonymous_stack: List[Dict[str, Any]] = []
+    args: List[bytes]
+    for chunk, line in enumerate(iterator.testcase.parts):
+        if not iterator.testcase.reducible[chunk]:
+            continue
+        for match in re.finditer(b'(?:function\\s+(\\w+)|(\\w+)\\s*=\\s*function)\\s*\\((\\s*\\w+\\s*(?:,\\s*\\w+\\s*)*)\\)', line):
+            fun = match.group(1)
+            if fun is None:
+                fun = match.group(2)
+            if match.group(3) == b'':
+                args = []
+            else:
+                args = match.group(3).split(b',')
+            if fun not in functions:
+                functions[fun] = {'defs': args, 'args_pattern': match.group(3), 'chunk': chunk, 'uses': []}
+            else:
+                functions[fun]['defs'] = args
+                functions[fun]['args_pattern'] = match.group(3)
+                functions[fun]['chunk'] = chunk
+        for match in re.finditer(b'\\(function\\s*\\w*\\s*\\(((?:\\s*\\w+\\s*(?:,\\s*\\w+\\s*)*)?)\\)\\s*{', line):
+            if match.group(1) == b'':
+                args = []
+            else:
+                args = match.group(1).split(b',')
+            anonymous_stack += [{'defs': args, 'chunk': chunk, 'use': None, 'use_chunk': 0}]
+        for match in re.finditer(b'}\\s*\\)\\s*\\(((?:[^()]|\\([^,()]*\\))*)\\)', line):
+            if not anonymous_stack:
+                continue
+            anon = anonymous_stack[-1]
+            anonymous_stack = anonymous_stack[:-1]
+            if match.group(1) == b'' and (not anon['defs']):
+                continue
+            if match.group(1) == b'':
+                args = []
+            else:
+                args = match.group(1).split(b',')
+            anon['use'] = args
+            anon['use_chunk'] = chunk
+            anonymous_queue += [anon]
+        for match in re.finditer(b'((\\w+)\\s*\\(((?:[^()]|\\([^,()]*\\))*)\\))', line):
+            pattern = match.group(1)
+            fun = match.group(2)
+            if match.group(3) == b'':
+                args = []
+            else:
+                args = match.group(3).split(b',')
+            if fun not in functions:
+                functions[fun] = {'uses': []}
+            functions[fun]['uses'] += [{'values': args, 'chunk': chunk, 'pattern': pattern}]
+    if not functions and (not anonymous_queue):
+        return
+    LOG.info('Starting removing function arguments.')
+    for fun, args_map in functions.items():
+        description = ""arguments of '"" + fun.decode('utf-8', 'replace') + ""'""
+        if 'defs' not in args_map or not args_map['uses']:
+            LOG.info(""Ignoring %s because it is 'uninteresting'."", description)
+            continue
+        maybe_moved_arguments = 0
+        new_tc = iterator.testcase.copy()
+        arg_defs = args_map['defs']
+        def_chunk = args_map['chunk']
+        subst = new_tc.parts[def_chunk].replace(args_map['args_pattern'], b'', 1)
+        new_tc.parts = new_tc.parts[:def_chunk] + [subst] + new_tc.parts[def_chunk + 1:]
+        new_tc.reducible = new_tc.reducible[:def_chunk] + [True] + new_tc.reducible[def_chunk + 1:]
+        for arg_use in args_map['uses']:
+            values = arg_use['values']
+            chunk = arg_use['chunk']
+            if chunk == def_chunk and values == arg_defs:
+                continue
+            while len(values) < len(arg_defs):
+                values = values + [b'undefined']
+            setters = b''.join((a + b' = ' + v + b';\n' for a, v in zip(arg_defs, values)))
+            subst = setters + new_tc.parts[chunk]
+            new_tc.parts = new_tc.parts[:chunk] + [subst] + new_tc.parts[chunk + 1:]
+            new_tc.reducible = new_tc.reducible[:chunk] + [True] + new_tc.reducible[chunk + 1:]
+        maybe_moved_arguments += len(arg_defs)
+        for test in iterator.try_testcase(new_tc, 'Removing ' + description):
+            yield (maybe_moved_arguments, test)
+            if iterator.last_feedback:
+                num_moved_arguments += maybe_moved_arguments
+                break
+        else:
+            num_survived_arguments += maybe_moved_arguments
+        for arg_use in args_map['uses']:
+            chunk = arg_use['chunk']
+            values = arg_use['values']
+            if chunk == def_chunk and values == arg_defs:
+                continue
+            new_tc = iterator.testcase.copy()
+            subst = new_tc.parts[chunk].replace(arg_use['pattern'], fun + b'()', 1)
+            if new_tc.parts[chunk] == subst:
+                continue
+            new_tc.parts = new_tc.parts[:chunk] + [subst] + new_tc.parts[chunk + 1:]
+            new_tc.reducible = new_tc.reducible[:chunk] + [True] + new_tc.reducible[chunk + 1:]
+            maybe_moved_arguments = len(values)
+            for test in iterator.try_testcase(new_tc, f'Removing {description} at {iterator.testcase.atom} #{chunk}'):
+                yield (maybe_moved_arguments, test)
+                if iterator.last_feedback:
+                    num_moved_arguments += maybe_moved_arguments
+                    break
+            else:
+                num_survived_arguments += maybe_moved_arguments
+    for anon in anonymous_queue:
+        noop_changes = 0
+        maybe_moved_arguments = 0
+        new_tc = iterator.testcase.copy()
+        arg_defs = anon['defs']
+        def_chunk = anon['chunk']
+        values = anon['use']
+        chunk = anon['use_chunk']
+        description = f'arguments of anonymous function at #{iterator.testcase.atom} {def_chunk}'
+        subst = new_tc.parts[def_chunk].replace(b','.join(arg_defs), b'', 1)
+        if new_tc.parts[def_chunk] == subst:
+            noop_changes += 1
+        new_tc.parts = new_tc.parts[:def_chunk] + [subst] + new_tc.parts[def_chunk + 1:]
+        new_tc.reducible = new_tc.reducible[:def_chunk] + [True] + new_tc.reducible[def_chunk + 1:]
+        while len(values) < len(arg_defs):
+            values = values + [b'undefined']
+        setters = b''.join((b'var %s = %s;\n' % (a, v) for a, v in zip(arg_defs, values)))
+        subst = new_tc.parts[def_chunk] + b'\n' + setters
+        if new_tc.parts[def_chunk] == subst:
+            noop_changes += 1
+        new_tc.parts = new_tc.parts[:def_chunk] + [subst] + new_tc.parts[def_chunk + 1:]
+        new_tc.reducible = new_tc.reducible[:def_chunk] + [True] + new_tc.reducible[def_chunk + 1:]
+        subst = new_tc.parts[chunk].replace(b','.join(anon['use']), b'', 1)
+        if new_tc.parts[chunk] == subst:
+            noop_changes += 1
+        new_tc.parts = new_tc.parts[:chunk] + [subst] + new_tc.parts[chunk + 1:]
+        new_tc.reducible = new_tc.reducible[:chunk] + [True] + new_tc.reducible[chunk + 1:]
+        maybe_moved_arguments += len(values)
+        if noop_changes == 3:
+            continue
+        for test in iterator.try_testcase(new_tc, 'Removing ' + description):
+            yield (maybe_moved_arguments, test)
+            if iterator.last_feedback:
+                num_moved_arguments += maybe_moved_arguments
+                break
+        else:
+            num_survived_arguments += maybe_moved_arguments
+    LOG.info('')
+    LOG.info('Done with this round!')
+    LOG.info('%s moved;', quantity(num_moved_arguments, 'argument'))
+    LOG.info('%s survived.', quantity(num_survived_arguments, 'argument'))"%string.
 End PinsSrc.
